@@ -6,8 +6,9 @@ import RtenVerif.Lemmas.SymMachine
 # C11 — Symbolic expression simplification and bounds are sound
 
 Theorems over `RtenVerif.Model.Sym` (model of `rten-shape-inference/src/sym_expr.rs` *after*
-the fixes `9e4cee0` (nested Div/DivCeil constant merge uses `checked_mul`) and `f73ff8c`
-(`range` uses interval arithmetic)).
+the fixes `9e4cee0` (nested Div/DivCeil constant merge uses `checked_mul`), `f73ff8c`
+(`range` uses interval arithmetic) and `a4a397a` (`eval` of `Broadcast` sends a size of 1 to
+the other size, including 0, instead of taking `max`)).
 
 Semantics.  `ev σ e` is evaluation over unbounded integers (`Arith.ideal`), `evc σ e` is
 overflow-checked `i32` evaluation (`Arith.checked`; any overflow is `error panic`), and the
@@ -33,11 +34,12 @@ theorem c11_canonicalize_preserves_eval (σ : Env) (e : SymExpr) (v : Int)
 
 /-- **C11.T1 (partial)** `simplify` preserves the value for every expression and assignment,
 provided the two arms that are not integer identities meet their side condition where they
-fire (`Guards`, evaluated on the canonicalised expression): `Broadcast` operands are `≥ 1` and
+fire (`Guards`, evaluated on the canonicalised expression): `Broadcast` operands are
 equal-or-one; a `DivCeil` whose simplified dividend is a `DivCeil` has positive divisors.
 Every other arm (all of `Neg Add Sub Mul Div Max Min`, `remove_common_factors` incl. the gcd
 step, nested `Div` merging, `x.div_ceil(x)`, constant folds) is proved unconditionally.
-What is missing for the full statement is exactly the two findings below. -/
+What is missing for the full statement is exactly the open finding below (the `Broadcast`
+condition is the documented domain of that constructor). -/
 theorem c11_simplify_preserves_eval_partial {A : Arith} (hA : Exact A) (σ : Env)
     (e e' : SymExpr) (v : Int) (hs : simplify A e = some e')
     (hg : Guards A σ (canonicalize e)) (h : ev σ e = .ok v) : ev σ e' = .ok v :=
@@ -46,9 +48,10 @@ theorem c11_simplify_preserves_eval_partial {A : Arith} (hA : Exact A) (σ : Env
 /-- **C11.T1 (headline, hypotheses on the ORIGINAL expression; partial).**  For every
 expression `e`, every assignment `σ` and every exact arithmetic: if every `DivCeil` divisor
 of `e` evaluates to a positive number (`posDivisors`) and every `Broadcast` node of `e` has
-operands `≥ 1` that are equal or one of them `1` (`bcastDom`), then `simplify` preserves the
-value.  The two hypotheses are exactly the two open findings; nothing about the canonicalised
-tree or about intermediate results of the simplifier is assumed. -/
+operands that are equal or one of them `1` (`bcastDom`, the documented domain of the
+constructor — no sign condition), then `simplify` preserves the value.  `posDivisors` is
+exactly the open finding; nothing about the canonicalised tree or about intermediate results
+of the simplifier is assumed. -/
 theorem c11_simplify_preserves_eval_orig_partial {A : Arith} (hA : Exact A) (σ : Env)
     (e e' : SymExpr) (v : Int) (hs : simplify A e = some e')
     (hp : posDivisors σ e) (hb : bcastDom σ e) (h : ev σ e = .ok v) : ev σ e' = .ok v :=
@@ -109,14 +112,10 @@ theorem c11_simplify_preserves_eval_false_divceil : ¬ SimplifySoundFull := by
 
 def envB : Env := fun n => if n = 4 then some 1 else none
 
-/-- **Finding C11-broadcast-zero-one.** `broadcast(0, s4)` simplifies to `0`, but evaluates
-(as `max`) to `1` at `s4 = 1`, an assignment inside the documented domain. -/
-theorem c11_simplify_preserves_eval_false_broadcast : ¬ SimplifySoundFull := by
-  intro h
-  have := h envB (.bin .broadcast (.value 0) (.var 4 false)) (.value 0) 1
-    (by decide) (by decide) (by decide)
-  revert this
-  decide
+/-- Former finding C11-broadcast-zero-one (fixed by `a4a397a`): `broadcast(0, s4)` simplifies
+to `0`, and `eval` now also gives `0` at `s4 = 1` (it used to give `max(0, 1) = 1`). -/
+example : simplify Arith.checked (.bin .broadcast (.value 0) (.var 4 false)) = some (.value 0) ∧
+    ev envB (.bin .broadcast (.value 0) (.var 4 false)) = .ok 0 := by decide
 
 /-- `Guards` and `Dom` have decidable sufficient forms (`guardsB`, `domB`), so the
 hypotheses of T1–T3 can be computed for a concrete expression and assignment. -/
